@@ -20,6 +20,7 @@ import (
 	"bytes"
 	"fmt"
 	"path"
+	"sort"
 	"strings"
 )
 
@@ -54,6 +55,10 @@ func (w *codewriter) Imports() string {
 			pp0 = append(pp0, pkg)
 		}
 	}
+
+	// map iteration order must not reach the output (with no_fmt nothing sorts the block later)
+	sort.Strings(pp0)
+	sort.Strings(pp1)
 
 	// check if need an empty line between groups
 	if len(pp0) != 0 && len(pp1) > 0 {
